@@ -250,15 +250,39 @@ fn run(ops: &[Op]) -> Result<(), (usize, String)> {
         }
       }
       Op::AddUnmarked => {
-        h.add_unmarked_module_reference(ModuleReference::DUMMY);
+        // one of three module references, chosen by the position in the history: several modules can wait to be marked
+        let m = [ModuleReference::DUMMY, ModuleReference::ROOT, ModuleReference::STD_TUPLES][n % 3];
+        let waiting_before = h.unmarked_module_references.clone();
+        h.add_unmarked_module_reference(m);
         if snapshot(&h) != before {
           return fail("add_unmarked_module_reference: table_unchanged".to_string());
         }
+        let mut want = waiting_before;
+        want.insert(m);
+        if h.unmarked_module_references != want {
+          return fail("add_unmarked_module_reference: the waiting set is the old one plus the module".to_string());
+        }
       }
       Op::PopUnmarked => {
-        h.pop_unmarked_module_reference();
+        let waiting_before = h.unmarked_module_references.clone();
+        let popped = h.pop_unmarked_module_reference();
         if snapshot(&h) != before {
           return fail("pop_unmarked_module_reference: table_unchanged".to_string());
+        }
+        // exactly the module handed out leaves the waiting set (the sweep gate stays closed while any module waits)
+        let ok = match popped {
+          None => waiting_before.is_empty() && h.unmarked_module_references.is_empty(),
+          Some(m) => {
+            let mut want = waiting_before.clone();
+            waiting_before.contains(&m) && want.remove(&m) && h.unmarked_module_references == want
+          }
+        };
+        if !ok {
+          return fail(format!(
+            "pop_unmarked_module_reference: {} module(s) were waiting, {} are left after one was handed out",
+            waiting_before.len(),
+            h.unmarked_module_references.len()
+          ));
         }
       }
       Op::TempStr => {
